@@ -174,9 +174,12 @@ let run_sync (toks : string array) =
   let mark = Buffer.length buf in
   try
     let rs = ref (fresh (nat_of_int nrep)) in
+    let final_only = toks.(0) = "Yf" in
+    let nev = List.length evs in
     List.iteri (fun i e ->
-      if i > 0 then add ";";
+      if i > 0 && not final_only then add ";";
       (match ev_run (page_hash ki) lvl_of String.equal vh merge !rs [e] with Ok r -> rs := r | _ -> raise Exit);
+      if (not final_only) || i + 1 = nev then
       List.iteri (fun j rp ->
         if j > 0 then add "/";
         add "S="; add (String.concat "," (List.map (fun (k, v) -> Printf.sprintf "%d=%d" (int_of_n k) v) rp.r_store));
@@ -199,7 +202,7 @@ let () =
          | "P" -> run_pair toks
          | "D" -> run_list toks
          | "L" -> run_level toks
-         | "Y" -> run_sync toks
+         | "Y" | "Yf" -> run_sync toks
          | _ -> add "?");
         Buffer.add_buffer out buf; Buffer.add_char out '\n';
         if Buffer.length out > (1 lsl 20) then (print_string (Buffer.contents out); Buffer.clear out)
